@@ -337,6 +337,25 @@ def check_tree(tree, rng, V, C):
             C["swapped_operand_equality_checks"] = C.get("swapped_operand_equality_checks", 0) + 1
             if tree[1] in ("-", "/", "**") and comp == build(swapped):
                 viol("swapped_operands_equal", "equality_not_structural", {"op": tree[1], "swapped": text(swapped)})
+        # the operator may be named by its symbol ("+", " ** "): the same expression as the one written with Python's operator
+        if tree[0] == "op":
+            from tdgl.parameter import CompositeParameter as _CP
+
+            sh_ = {}
+            l_, r_ = build(tree[2], sh_), build(tree[3], sh_)
+            C["symbol_operator_checks"] = C.get("symbol_operator_checks", 0) + 1
+            try:
+                by_symbol = _CP(l_, r_, [tree[1], " " + tree[1] + " "][len(text(tree)) % 2])
+            except Exception as exc_:  # noqa: BLE001
+                try:
+                    OPS[tree[1]](l_, r_)
+                    viol("symbol_operator_rejected", "symbol_operator_wrong", {"op": tree[1], "error": repr(exc_)[:160]})
+                except Exception:  # noqa: BLE001
+                    pass  # (the Python operator refuses these operands too, e.g. two numbers)
+            else:
+                by_python = OPS[tree[1]](l_, r_)
+                if not (by_symbol == by_python) or by_symbol.operator is not by_python.operator or bool(by_symbol.time_dependent) != bool(by_python.time_dependent):
+                    viol("symbol_operator_other_expression", "symbol_operator_wrong", {"op": tree[1]})
         # the SAME operand objects under another operator are another expression (a + b is not a - b, a * 2 is not a ** 2)
         if tree[0] == "op":
             sh = {}
